@@ -264,7 +264,7 @@ func c02Bound(size int) time.Duration {
 func TestC02(t *testing.T) {
 	r := kit.New(t, "C02")
 	defer r.Finish()
-	r.SetRule("(schema, document) pairs: schemas from G6 (valid), G6+G7 (one or two faults) and random SDL over small name pools; documents from G8, G8+G9 (1-3 faults) and type-blind generation over the schema's name pools (unknown types/fields, undefined variables, unused and mutually recursive fragments, wrong value shapes); " + sprintf("%d", len(c02Families)) +
+	r.SetRule("(schema, document) pairs: schemas from G6 (valid), G6+G7 (one or two faults; every fault operator on its own in a dedicated class) and random SDL over small name pools; documents from G8, G8+G9 (1-3 faults) and type-blind generation over the schema's name pools (unknown types/fields, undefined variables, unused and mutually recursive fragments, wrong value shapes); " + sprintf("%d", len(c02Families)) +
 		" size-parametrised families (fragment fan-out plain/under a field/under __schema/__type, cycles through fields, every fan-out also with a back edge from the last fragment to the first, wide and deep same-response-name selections, wide unions, large and deep literals) at 256 B - 4 KB; overlap, introspection and random fragment-graph documents (2-45 fragments, fan-out 1-3, forward and back edges, spreads plain / under a field / under an alias, over Query, __Type and __Schema). " +
 		"oracle: LoadSchema, ParseSchemas+ValidateSchemaDocument, Validate and LoadQuery return normally (schema xor error; document xor errors; both load paths agree); a <=1 KB document validates in < 2 s, 4 KB in < 30 s, time ratio per doubling <= 20 once above 50 ms. " +
 		"non-trivial = both texts parse and the schema loads (validation really ran); distinct by text")
@@ -368,6 +368,27 @@ func TestC02(t *testing.T) {
 		}
 	})
 	clearInflight()
+	// every schema fault operator, one at a time (the loader's error paths)
+	kit.RegisterReplayer("C02", "schemafault", c02Replay)
+	r.Rapid("schemafault", kit.Pick(3000, 100000), func(rt *rapid.T) {
+		st := gen.TypedSchema().Draw(rt, "schema")
+		f, ok := gen.ApplySchemaFault(rt, &st, rapid.IntRange(0, gen.NumSchemaFaults()-1).Draw(rt, "sfault"))
+		if !ok {
+			rt.Skip("no target")
+		}
+		if rapid.IntRange(0, 3).Draw(rt, "second") == 0 {
+			gen.ApplySchemaFault(rt, &st, rapid.IntRange(0, gen.NumSchemaFaults()-1).Draw(rt, "sfault2"))
+		}
+		c := valCase{Schema: renderSchemaTree(st, gen.Canon), Query: "{ __typename }", Class: "schema-fault"}
+		r.Begin("schemafault", func() interface{} { return c })
+		defer r.End()
+		v, _ := c02Eval(c)
+		r.Case(true, c.Schema)
+		r.Class("schemafault:" + f.Name)
+		if v != "" {
+			r.Failf(rt, "schemafault", c, "%s", v)
+		}
+	})
 	r.Rapid("pair", kit.Pick(4000, 200000), func(rt *rapid.T) {
 		var c valCase
 		switch k := rapid.IntRange(0, 5).Draw(rt, "class"); k {
